@@ -23,6 +23,8 @@ pub enum FaultPoint {
     None,
     /// the given request unit never answers, from its given step on
     Silent { unit: u8, step: u8 },
+    /// a reply of several datagrams stops after its first datagram (the server "stops mid-exchange")
+    Partial { unit: u8, step: u8 },
     /// TCP: the reply is written but the connection is never closed
     NoClose,
     /// nothing listens on the port
@@ -57,9 +59,11 @@ pub enum Case {
 fn targets() -> Vec<(Entry, Vec<FaultPoint>)> {
     use FaultPoint::*;
     let s = |unit, step| Silent { unit, step };
+    let p = |unit, step| Partial { unit, step };
     vec![
-        (Entry::Valve { engine: EngineSel::SourceNone, players: 2, rules: 2, check: false }, vec![None, s(0, 0), s(0, 1), s(1, 0), s(1, 1), s(2, 0), s(2, 1)]),
-        (Entry::Gs3, vec![None, s(0, 0), s(0, 1)]),
+        (Entry::Valve { engine: EngineSel::SourceNone, players: 2, rules: 2, check: false }, vec![None, s(0, 0), s(0, 1), s(1, 0), s(1, 1), s(2, 0), s(2, 1), p(0, 1), p(1, 1), p(2, 1)]),
+        (Entry::Gs3, vec![None, s(0, 0), s(0, 1), p(0, 1)]),
+        (Entry::Gs1, vec![None, s(0, 0), p(0, 0)]),
         (Entry::Unreal2 { players: 2, rules: 2 }, vec![None, s(0, 0), s(1, 0), s(2, 0)]),
         (Entry::Quake(3), vec![None, s(0, 0)]),
         (Entry::McJava, vec![None, s(0, 0), NoClose, Refused]),
@@ -206,7 +210,7 @@ impl Prop for C12 {
 
     fn rule(&self) -> String {
         "REAL loopback sockets (no scripted transport). (a) every point at which a server may fall silent, enumerated: valve (before info; after the info challenge; before / in the \
-         middle of the players and rules exchanges), GameSpy 3 (handshake, data), Unreal 2 (info, rules, players), Quake 3, Bedrock over UDP; Minecraft Java and legacy 1.6 over TCP \
+         middle of the players and rules exchanges; a split reply that stops after its first fragment), GameSpy 1 and 3 (handshake, data; a multi-part reply that stops after its first part), Unreal 2 (info, rules, players), Quake 3, Bedrock over UDP; Minecraft Java and legacy 1.6 over TCP \
          (accept then silent; reply written but never closed; connection refused) x IPv4 / IPv6 x timeouts 40 / 120 ms x retries 0..=2 x timeout shape (all three equal; only the \
          bounding one short and the others 20 s; the others None), served by real server threads that wrap the \
          reference servers in the fault injector. The query runs on a helper thread and must deliver Err of the matching class (PacketReceive; SocketConnect when refused; Ok when \
@@ -248,7 +252,8 @@ impl Prop for C12 {
                 for v6 in [false, true] {
                     for timeout_ms in [40u16, 120] {
                         for retries in 0u8 ..= 2 {
-                            for idx in 0 .. nstates {
+                            // (a partial reply needs a state whose reply spans several datagrams: more states are tried)
+                            for idx in 0 .. if matches!(f, FaultPoint::Partial { .. }) { nstates.max(4) } else { nstates } {
                                 if tier == Tier::Quick && *f == FaultPoint::None && (retries > 0 || timeout_ms == 40) {
                                     continue;
                                 }
@@ -596,7 +601,7 @@ impl Prop for C12 {
                 let ip = ip_of(*v6);
                 o.label(format!("{}:{fault:?}", entry.sig_name()));
                 o.label(if *v6 { "ipv6" } else { "ipv4" });
-                o.nontrivial = *v6 || matches!(fault, FaultPoint::Silent { unit, step } if *unit > 0 || *step > 0) || *fault == FaultPoint::NoClose;
+                o.nontrivial = *v6 || matches!(fault, FaultPoint::Silent { unit, step } if *unit > 0 || *step > 0) || matches!(fault, FaultPoint::Partial { .. }) || *fault == FaultPoint::NoClose;
                 let st = state_for_entry(&entry, *idx);
                 let proto = match entry { Entry::McJava | Entry::McLegacySpecific(_) => Proto::Tcp, _ => Proto::Udp };
                 let fault2 = *fault;
@@ -604,6 +609,7 @@ impl Prop for C12 {
                     let inner = st.responder();
                     match fault2 {
                         FaultPoint::Silent { unit, step } => Box::new(Faulty::new(inner, fam, unit, step, vec![Fault::Silent; 16]).0),
+                        FaultPoint::Partial { unit, step } => Box::new(Faulty::new(inner, fam, unit, step, vec![Fault::Partial; 16]).0),
                         FaultPoint::NoClose => Box::new(NeverClose(inner)),
                         _ => inner,
                     }
